@@ -311,6 +311,20 @@ pub fn run_c07(tier: Tier) -> i32 {
                 }
                 other => fails.push(("C07-default-deadline".into(), format!("request without deadline rejected: {:?}", other.map(|_| ()).map_err(|e| e.to_string())))),
             }
+            // ... and a deadline that IS there, in the documented format, written by a peer that is
+            // not this tree, is the deadline (not the default): 500 ms, 60 s, 1 hour
+            for (secs, nanos) in [(0u64, 500_000_000u32), (60, 0), (3600, 0)] {
+                let js = format!(r#"{{"Request":{{"context":{{"deadline":{{"secs":{secs},"nanos":{nanos}}},"trace_context":{{"trace_id":[1,0,0,0,0,0,0,0,0,0,0,0,0,0,0,0],"span_id":2,"sampling_decision":"Sampled"}}}},"id":9,"message":3}}}}"#);
+                match serde_json::from_str::<tarpc::ClientMessage<u32>>(&js) {
+                    Ok(tarpc::ClientMessage::Request(r)) => {
+                        let d = r.context.deadline.checked_duration_since(now);
+                        if d != Some(std::time::Duration::new(secs, nanos)) {
+                            fails.push(("C07-deadline-shift".into(), format!("a JSON request in the documented format with {secs}.{nanos:09} s left was decoded as now+{d:?}")));
+                        }
+                    }
+                    other => fails.push(("C07-default-deadline".into(), format!("request with a deadline rejected: {:?}", other.map(|_| ()).map_err(|e| e.to_string())))),
+                }
+            }
         });
     }
     let sample = {
